@@ -117,6 +117,34 @@ def run(ctx):
             want = [seen.setdefault(i, len(seen)) for i in ids]
             rep = vlib.ask_driver(["RENUMBER " + " ".join(map(str, ids))])[0].split()
             corr_r.add([int(v) for v in rep] == want, {"ids": ids, "model": rep, "harness": want})
+    # ---- strategies given as SOURCE CODE (run_code — the path of `rqalpha run -f`): what one strategy defines at module level must not reach the next
+    def code_job(spec, codes):
+        here = os.path.dirname(os.path.abspath(__file__))
+        p_ = subprocess.run(["/venv/bin/python", os.path.join(here, "..", "code_worker.py")], input=json.dumps({"spec": spec, "codes": codes}), capture_output=True, text=True,
+                            env=dict(os.environ, PYTHONPATH=vlib.REPO), timeout=600)
+        if p_.returncode != 0:
+            raise RuntimeError("code_worker failed: " + p_.stderr[-1500:])
+        return json.loads(p_.stdout.strip().splitlines()[-1])["logs"]
+    cjobs = []
+    for _ in range(ctx.n(2, 12)):
+        spec = {"seed": rnd.randrange(1, 10 ** 6), "kind": "stock"}
+        for target, hist in (("plain", ["hooks"]), ("state", ["hooks", "state"]), ("hooks", ["plain", "state"])):
+            cjobs.append((spec, target, hist))
+    with concurrent.futures.ThreadPoolExecutor(max_workers=min(12, os.cpu_count() or 4)) as ex:
+        futs = {ex.submit(lambda sp, tg, hs: (code_job(sp, [tg]), code_job(sp, hs + [tg])), *cj): cj for cj in cjobs}
+        for f in concurrent.futures.as_completed(futs):
+            spec, target, hist = futs[f]
+            fresh, after = f.result()
+            ctx.evaluations += 1
+            ctx.stats["compared_source_code_histories"] += 1
+            ctx.nontrivial("run_code", target, tuple(hist), len(fresh[0]["log"]) > 0)
+            a, b = fresh[0], after[-1]
+            if a != b:
+                i = next((k for k, (x, y) in enumerate(zip(a["log"], b["log"])) if x != y), min(len(a["log"]), len(b["log"])))
+                ctx.witness("C13.2", {"kind": "source_code_history", "target": target},
+                            "strategy source %r run with run_code after the sources %r in the same process differs from its run in a fresh process at log entry %d: fresh %s | after %s (ends: %s | %s)"
+                            % (target, hist, i, json.dumps(a["log"][i:i + 1])[:240], json.dumps(b["log"][i:i + 1])[:240], a["end"], b["end"]),
+                            {"spec": spec, "codes": hist + [target], "note": "replay: harness/code_worker.py with this job on stdin"})
     ctx.sample({"targets": n_targets, "jobs": len(jobs)})
 
 
